@@ -160,7 +160,15 @@ def _same_tbl(model, impl):
     return True
 
 
+# --- default values as regenerated obligations (Generated/Defaults.lean <- harness/translate_defaults.py; stream defaults[...])
+import defaults_stream  # noqa: E402
+from common import all_pre_build as pre_build  # noqa: E402,F401,F811  (runs EVERY translate_*.py)
+LEAN_MODULES += ["PyomaVerif.Props.WiringDefaultsC09"]
+THEOREMS += ["PV.WiringDefaults.C09_hc_defaults"]
+
+
 def correspondence(ctx):
+    defaults_stream.correspondence(ctx, props=())
     from pyoma2.functions import gen
 
     rng = ctx.rng
